@@ -32,8 +32,15 @@ def shards(tier):
     return e1.std_shards(tier, with_p=True, with_big=True)
 
 
+def atoms_obs(c):
+    """The atoms of a concept as the extents of the members of c.atoms; a member that is not a
+    concept is reported as such instead of crashing the harness."""
+    return tuple(a.extent if hasattr(a, 'extent') else ('NOT-A-CONCEPT', repr(a)[:60])
+                 for a in c.atoms)
+
+
 def label_obs(lat):
-    return [(c.objects, c.properties, tuple(a.extent for a in c.atoms)) for c in lat]
+    return [(c.objects, c.properties, atoms_obs(c)) for c in lat]
 
 
 def check_case(case, ctr):
